@@ -177,12 +177,12 @@ func cmdRun(args []string) {
 	// a broken tree can fail in dozens of ways per run: minimise the first
 	// few distinct failures, within a wall-clock budget; save a few more
 	// unminimised; count the rest
-	const maxMinimised, maxSaved = 3, 8
-	minBudget := 40 * time.Second
+	const maxMinimised, maxSaved = 3, 5
+	postBudget := 60 * time.Second // all minimisation work of this worker
 	if *tier == "thorough" {
-		minBudget = 150 * time.Second
+		postBudget = 240 * time.Second
 	}
-	var minSpent time.Duration
+	var postDeadline time.Time
 	nSaved := 0
 	for i := 0; i < *n; i++ {
 		if *maxSec > 0 && time.Since(start).Seconds() > *maxSec {
@@ -229,11 +229,12 @@ func cmdRun(args []string) {
 			}
 			nSaved++
 			min := plan
-			if !*noMin && nSaved <= maxMinimised && minSpent < minBudget {
+			if postDeadline.IsZero() {
+				postDeadline = time.Now().Add(postBudget)
+			}
+			if !*noMin && nSaved <= maxMinimised && time.Now().Before(postDeadline) {
 				key := v.key()
-				t0 := time.Now()
-				min, _ = minimizeUntil(plan, func(q *Plan) bool { return sameViolation(key, execute(q, execOpts{})) }, 1500, t0.Add(minBudget-minSpent))
-				minSpent += time.Since(t0)
+				min, _ = minimizeUntil(plan, func(q *Plan) bool { return sameViolation(key, execute(q, execOpts{})) }, 1500, postDeadline)
 				// the violation record of the minimised plan
 				r2 := execute(min, execOpts{})
 				for k := range r2.Viol {
@@ -270,7 +271,7 @@ func cmdRun(args []string) {
 						nSaved--
 						continue
 					}
-					full.Prefix = minimizePrefix(full, path, v.Prop, time.Now().Add(45*time.Second))
+					full.Prefix = minimizePrefix(full, path, v.Prop, postDeadline)
 					full.save(path)
 					min, v = full, pv
 					ws.Extra["violations_that_need_earlier_runs_in_the_same_process"]++
@@ -390,7 +391,7 @@ func reproducesFresh(path, prop string) bool {
 	if err != nil {
 		return true
 	}
-	out, code := runCmd(nil, 180*time.Second, exe, "replay", "-quiet", path)
+	out, code := runCmd(nil, 90*time.Second, exe, "replay", "-quiet", path)
 	return code == 1 && strings.Contains(out, "VIOLATION property="+prop)
 }
 
